@@ -266,10 +266,12 @@ Lemma family_term_lin fam c n m r phi : family_term fam c n m r phi = c * family
 Proof. destruct fam as [|[|fam]]; [apply term_std_lin|apply term_noll_lin|apply term_fringe_lin]. Qed.
 
 (** instantiated statements (every family, every coefficient vector / sample set / N) *)
+(** [ZernikeX(coeffs).poly(r, phi)] of family [fam] (0 standard, 1 Noll, otherwise Fringe) over the reals *)
+Definition rpoly (fam : nat) (c : list R) (r phi : R) : R :=
+  zk_poly (O := ROps) (family_term fam) c (family_indices fam) r phi.
+
 Theorem zernike_poly_linear fam a b c1 c2 r phi : length c1 = length c2 ->
-  zk_poly (O := ROps) (family_term fam) (lincomb a b c1 c2) (family_indices fam) r phi
-  = a * zk_poly (O := ROps) (family_term fam) c1 (family_indices fam) r phi
-    + b * zk_poly (O := ROps) (family_term fam) c2 (family_indices fam) r phi.
+  rpoly fam (lincomb a b c1 c2) r phi = a * rpoly fam c1 r phi + b * rpoly fam c2 r phi.
 Proof. intros H. apply poly_linear; [apply family_term_lin|exact H]. Qed.
 
 Theorem zernike_fit_recovers fam pts N c0 chat z :
@@ -312,8 +314,8 @@ Proof.
     unfold eval_R, k_zk_norm_fringe, k_zk_azimuthal, powZ. cbn [fold_left fst snd Z.ltb Z.compare Z.geb Z.to_nat pow_nat].
     rops. rewrite Rmult_0_l, cos_0. unfold Q2R. cbn [Qnum Qden]. field. }
   split.
-  - intros [|x [|? ?]] [|y [|? ?]] L1 L2 H; try discriminate. unfold design in H. cbn [map] in H.
-    rewrite !P in H. injection H as ->. reflexivity.
-  - split; [reflexivity|]. intros [|x [|? ?]] L; try discriminate.
-    rewrite !resid_design. cbn [map]. rewrite !P. unfold ss. cbn. nra.
+  - intros c d L1 L2. destruct c as [|x [|? ?]]; try discriminate L1. destruct d as [|y [|? ?]]; try discriminate L2.
+    intros H. unfold design in H. cbn [map] in H. rewrite !P in H. injection H as ->. reflexivity.
+  - split; [reflexivity|]. intros c L. destruct c as [|x [|? ?]]; try discriminate L.
+    rewrite !resid_design. cbn [map]. rewrite !P. unfold ss. cbn [dot]. pose proof (Rle_0_sqr (x - 3)) as Hs. unfold Rsqr in Hs. lra.
 Qed.
